@@ -13,7 +13,7 @@ import (
 // C09 — a deadline or cancellation stops any script promptly (DESIGN 3/C09).
 
 const (
-	c09B       = 4096  // polls / host calls allowed after the cancellation instant
+	c09B       = 32768 // ticks / host calls allowed after the cancellation instant (a few milliseconds of interpretation)
 	c09TwinCap = 30000 // ticks after which the unfaulted twin is declared non-terminating
 )
 
@@ -68,6 +68,9 @@ func c09Catalogue() []Shape {
 		add(c.name+"@if", "if (true) { "+c.text+" } else { x = 1; } return 1;", false)
 		add(c.name+"@else", "if (false) { x = 1; } else { "+c.text+" } return 1;", false)
 		add(c.name+"@foreach-body", "foreach q in [1, 2] { "+c.text+" } return 1;", false)
+		add(c.name+"@last-statement", c.text, false)
+		add(c.name+"@func-call-last", "function w1() { "+c.text+" } w1();", false)
+		add(c.name+"@func-call-last-assigned", "function w2() { "+c.text+" return 1; } function w1() { z = w2(); } w1();", false)
 		add(c.name+"@after-unused-value", "len(\"x\"); "+c.text+" return 1;", false)
 		add(c.name+"@func-after-unused-value", "function w1() { len(\"x\"); h(1); "+c.text+" return 2; } z = w1(); return z;", false)
 		add(c.name+"@ternary-call", "function w1() { "+c.text+" return 1; } function w0() { return 0; } z = true ? w1() : w0(); return z;", false)
@@ -140,6 +143,8 @@ func (p *c09) Enumerate(tier string) [][]int32 {
 				dl := int32(0)
 				if (k+si)%3 == 0 {
 					dl = 1
+				} else if (k+si)%7 == 1 {
+					dl = 2
 				}
 				out = append(out, []int32{0, int32(si), int32(opt), int32(api), dl, 1, int32(k)})
 			}
@@ -272,7 +277,10 @@ func (p *c09) Run(c *verifsim.Chooser, st *Stats, render bool) *Outcome {
 	currentDesc.Store(family)
 	opt := c.Intn(2) == 0
 	useRun := c.Intn(2) == 1
-	farDeadline := c.Intn(2) == 1 // the context also reports a (distant) deadline
+	// what the context says about its deadline: 0 nothing, 1 an hour away,
+	// 2 always half a millisecond away (a real deadline the script will beat)
+	dlKind := c.Intn(3)
+	farDeadline := dlKind == 1
 	// the context may also reach the evaluator the other documented way:
 	// Prepare, SetContext, Prepare again
 	prepTwice := mode == 1 && c.Intn(3) == 1
@@ -311,6 +319,7 @@ func (p *c09) Run(c *verifsim.Chooser, st *Stats, render bool) *Outcome {
 
 	ctx := verifsim.NewSimContext(k)
 	ctx.FarDeadline = farDeadline
+	ctx.NearDeadline = dlKind == 2
 	ctx.HardCap = need + c09B + 1000
 	ctx.PanicAfter = c09B
 	h := newHost(ctx)
@@ -352,7 +361,7 @@ func (p *c09) Run(c *verifsim.Chooser, st *Stats, render bool) *Outcome {
 		o.Sample = map[string]interface{}{
 			"script": text, "family": family, "optimizer": opt, "front_end": map[bool]string{true: "Run", false: "Execute"}[useRun],
 			"plan":   []string{"never", "cancel-at-clock", "already-expired", "cancel-inside-host-call", "deadline+slow-host"}[plan],
-			"k":      k, "host_call": hostCall, "slow_ticks": slow, "context_also_has_a_distant_deadline": farDeadline,
+			"k":      k, "host_call": hostCall, "slow_ticks": slow, "context_deadline": []string{"none", "one hour away", "always 500us away"}[dlKind],
 			"result": r.String(), "ticks": ctx.Ticks, "context_polls": ctx.Polls, "ticks_after_cancel": ctx.TicksAfter, "host_calls": h.Calls,
 			"twin_result": tw.res.String(), "twin_ticks": tw.ticks,
 		}
